@@ -64,6 +64,9 @@ func Bytes(name string, n int) []byte {
 	return b
 }
 
+// Blob is Bytes carried as one wide solver variable (same native behaviour).
+func Blob(name string, n int) []byte { return Bytes(name, n) }
+
 func Len(name string, opts ...int) int {
 	load()
 	if vs, ok := assignment[name]; ok {
@@ -75,6 +78,13 @@ func Len(name string, opts ...int) int {
 	}
 	return opts[0]
 }
+
+// LenFromConsts is Len whose option list is extended, in the symbolic build, by boundary values derived from the
+// integer constants of the named function (c-1, c, c+1, 2c). Natively the value comes from the assignment.
+func LenFromConsts(name, fn string, base ...int) int { return Len(name, base...) }
+
+// LenRange is Len over lo..hi.
+func LenRange(name string, lo, hi int) int { return Len(name, lo) }
 
 type skip struct{}
 
